@@ -184,9 +184,56 @@ def build_program(files: dict[str, str], outdir: str, config: str, timeout: floa
             last = tb.strip().splitlines()[-1][:160]
             internal = {"where": "/".join(frames[-1]) if frames else "?", "last": last, "tb": tb[-3000:]}
     cerr = [m.group(0)[:300] for m in re.finditer(r"(?m)^.*\.c:\d+:\d+: error: .*$", log)][:5]
-    return {"ok": ok, "rc": p.returncode, "errors": errors, "c_errors": cerr, "internal": internal,
+    c_units = [] if ok else _units_of_c_errors(outdir, log)
+    return {"ok": ok, "rc": p.returncode, "errors": errors, "c_errors": cerr, "c_units": c_units, "internal": internal,
             "log": log[-3000:] if not ok else "", "wall": time.time() - t0, "config": config, "outdir": outdir,
             "ir": ir}
+
+
+def _units_of_c_errors(outdir: str, log: str) -> list[str]:
+    """Unit names (u<k> prefixes of generated definitions) nearest above each C compiler error."""
+    out: list[str] = []
+    cache: dict[str, list[str]] = {}
+    for m in re.finditer(r"(?m)^(\S+\.c):(\d+):\d+: error: ", log):
+        path = os.path.join(outdir, m.group(1))
+        if path not in cache:
+            try:
+                with open(path, errors="replace") as f:
+                    cache[path] = f.read().split("\n")
+            except OSError:
+                cache[path] = []
+        lines = cache[path]
+        i = min(int(m.group(2)), len(lines)) - 1
+        lo = max(0, i - 400)
+        while i >= lo:
+            u = re.search(r"(?<![A-Za-z0-9])(u\d+)(?=[A-Z_])", lines[i])
+            if u:
+                if u.group(1) not in out:
+                    out.append(u.group(1))
+                break
+            i -= 1
+    return out
+
+
+def task_cgen(source: str, outdir: str, timeout: float = 600) -> dict[str, Any]:
+    """mypyc front end + C generation only (no C compiler) for a single-module source: does mypyc itself fail?"""
+    if os.path.isdir(outdir):
+        shutil.rmtree(outdir, ignore_errors=True)
+    os.makedirs(outdir)
+    with open(os.path.join(outdir, "native.py"), "w") as f:
+        f.write(source)
+    env = common.base_env()
+    env["MYPY_CACHE_DIR"] = os.path.join(outdir, ".mypy_cache")
+    code = ("from mypyc.build import mypyc_build\nfrom mypyc.options import CompilerOptions\n"
+            "mypyc_build(['native.py'], CompilerOptions(target_dir='build'))\n")
+    try:
+        p = subprocess.run([common.PY, "-c", code], cwd=outdir, env=env, capture_output=True, text=True, timeout=timeout,
+                           stdin=subprocess.DEVNULL, start_new_session=True)
+    except subprocess.TimeoutExpired:
+        return {"ok": False, "timeout": True}
+    log = p.stdout + p.stderr
+    shutil.rmtree(outdir, ignore_errors=True)
+    return {"ok": p.returncode == 0, "traceback": "Traceback (most recent call last)" in log, "log": log[-1500:]}
 
 
 _SAN_KIND = re.compile(r"ERROR: AddressSanitizer: ([\w-]+)|runtime error: ([^\n]{0,160})|"
